@@ -454,6 +454,8 @@ func runFed(cfg *runCfg, prop string) error {
 			w := c.world(fed)
 			frags := c.Frags(parsed.Fragments)
 			vars := c.vars(opVals)
+			// what a server computes with: the values given, and the operation's defaults for the rest
+			effVars := c.vars(withDefaults(op, opVals))
 			varnames := []string{}
 			for _, vd := range op.VariableDefinitions {
 				varnames = append(varnames, vd.Variable)
@@ -461,7 +463,7 @@ func runFed(cfg *runCfg, prop string) error {
 			fuel := 40 + 4*len(parsed.Fragments)
 			sels := c.Sels(op.SelectionSet)
 			root := opTypeName(op)
-			c.Printf("Definition exp%d := exec %d %s %s %s None %s %s.\n", id, fuel, w, frags, vars, c.S(root), sels)
+			c.Printf("Definition exp%d := exec %d %s %s %s None %s %s.\n", id, fuel, w, frags, effVars, c.S(root), sels)
 			c.Printf("Definition obs%d := %s.\n", id, c.observed(obs, fed))
 			guards := fmt.Sprintf("guards_of %s %s %d %s %s %s", frags, c.FieldTypes(fed.Cap.Schema), len(parsed.Fragments)+3, c.S(root), c.Strs(varnames), sels)
 			// model: the location assignment of the plan (when there is one)
@@ -512,7 +514,7 @@ func runFed(cfg *runCfg, prop string) error {
 				// the whole request path inside Coq, named fragments included
 				if flat, ferr := graphql.ApplyFragments(op.SelectionSet, parsed.Fragments); ferr == nil {
 					model += fmt.Sprintf(" && fed2_agrees %d %s %s %s %s %s %s %s %s %s %s %d %s", fuel, c.Strs(cs.Fed.Priorities), c.URLMap(fed.Cap.Locs),
-						c.FieldTypes(fed.Cap.Schema), c.FieldShapes(fed.Cap.Schema), w, vars, frags, c.S(root), sels, c.ksels(flat), obs.Class, c.JSON(obs.Data))
+						c.FieldTypes(fed.Cap.Schema), c.FieldShapes(fed.Cap.Schema), w, effVars, frags, c.S(root), sels, c.ksels(flat), obs.Class, c.JSON(obs.Data))
 					doc.Dist["model:whole-path-compared-fragments"]++
 				}
 			}
@@ -520,7 +522,7 @@ func runFed(cfg *runCfg, prop string) error {
 				// the whole request path inside Coq: plan, calls, stitching, scrubbing
 				if flat, ferr := graphql.ApplyFragments(op.SelectionSet, parsed.Fragments); ferr == nil {
 					model += fmt.Sprintf(" && fed_agrees %d %s %s %s %s %s %s %s %s %s [] %d %s", fuel, c.Strs(cs.Fed.Priorities), c.URLMap(fed.Cap.Locs),
-						c.FieldTypes(fed.Cap.Schema), c.FieldShapes(fed.Cap.Schema), w, vars, c.S(root), sels, c.ksels(flat), obs.Class, c.JSON(obs.Data))
+						c.FieldTypes(fed.Cap.Schema), c.FieldShapes(fed.Cap.Schema), w, effVars, c.S(root), sels, c.ksels(flat), obs.Class, c.JSON(obs.Data))
 					doc.Dist["model:whole-path-compared"]++
 				}
 			}
